@@ -14,7 +14,8 @@
 (* output projection, legacy byte layout, prediction of the pinned codec model).    *)
 EXTENDS PaZipStream, TLC, Json
 
-CONSTANT LoopBits
+CONSTANTS LoopBits,      \* bits decode_matches wants before it parses another match: 3 pinned, 8 repaired
+          GlobPosBytes   \* bytes of a global dictionary position in the legacy frame: 2 pinned, 4 with fix C02-5
 VARIABLE it
 
 (* boundary values of a field whose valid range is lo..hi inside a type 0..tmax *)
@@ -82,7 +83,7 @@ Item(x) ==
         lz_ok |-> appl /\ \A i \in 1..Len(x.ms) : x.ms[i].k \notin {"lit", "glob"},
         out |-> IF appl THEN Proj(Apply(x.ms, x.lits, Dict)) ELSE Proj(<<>>),
         lits |-> x.lits, dict |-> IF appl THEN Dict ELSE <<>>,
-        legacy |-> IF appl THEN WriteLegacy(x.ms, x.lits) ELSE <<>>]
+        legacy |-> IF appl THEN WriteLegacy(x.ms, x.lits, GlobPosBytes) ELSE <<>>]
 
 GenSpec == it \in ItemSet /\ [][UNCHANGED it]_it
 Emit == PrintT(<<"REPLAY", ToJson(Item(it))>>)
